@@ -383,11 +383,20 @@ PROPS = {
                 quick=160, thorough=4000,
                 relevant=lambda f: f["kind"] in ({"drop-outside", "drop-added", "drop-nosv", "oracle-get", "oracle-contains", "oracle-range", "oracle-prefix", "oracle-len", "agree", "inv", "nosv", "reopen-diff"} | COMMON_KINDS),
                 nontrivial=lambda st: st.get("flush_steps", 0) >= 1 and (st.get("droprange_effective", 0) + st.get("clears", 0)) >= 1),
+    "C17": dict(engine="tree", profiles=[("filter", 3, False), ("filter", 1, True)], n_ops=130,
+                quick=160, thorough=4000,
+                relevant=lambda f: f["kind"] in ({"oracle-get", "oracle-contains", "oracle-range", "oracle-prefix", "oracle-len", "agree", "inv", "nosv", "filter-unknown-item", "resolve"} | COMMON_KINDS),
+                nontrivial=lambda st: st.get("filtered_merges", 0) >= 1 and st.get("filter_calls", 0) >= 1 and st.get("gets_from_tables", 0) >= 1),
     "C18": dict(engine="tree", profiles=[("tree", 3, False), ("ingest", 2, False), ("drop", 1, False)], n_ops=120,
                 quick=160, thorough=4000,
                 relevant=lambda f: f["kind"] in ({"marks"} | COMMON_KINDS),
                 nontrivial=TREE_NONTRIVIAL),
 }
+
+PROPS["C19"] = dict(engine="tree", profiles=[("fifo", 3, False), ("fifo", 1, True)], n_ops=150,
+                    quick=160, thorough=4000,
+                    relevant=lambda f: f["kind"] in ({"fifo-deeper-level", "fifo-expired-kept", "fifo-not-oldest", "fifo-within-limits", "oracle-get", "oracle-contains", "oracle-range", "agree", "inv", "reopen-diff"} | COMMON_KINDS),
+                    nontrivial=lambda st: st.get("fifo_effective", 0) >= 1 and st.get("flush_steps", 0) >= 2 and st.get("gets_from_tables", 0) >= 1)
 
 TRUSTED_BASE = [
     "Coq 8.16.1 kernel (coqc, full .vo builds; no native_compute)",
